@@ -324,15 +324,21 @@ func runC09(r *core.Run) {
 			"\ta", "  \ta", " \t a", "\t\ta", "-\ta", ">\ta", "- a\n\n\tb", "1.\ta\n\n\t\tb", "a\tb", "```\ncode\n```", "~~~\na\n~~~", "> ```\n> c\n> ```", "a\n\tb", "#\ta"}
 		// East Asian text with line breaks (the CJK line-break options look at the characters around a break) and inline
 		// links / images whose text ends in a line break
-		edge = append(edge, "東京の\n会社", "漢字。\n[会社\n](/u)", "東京の\n[会社\n](/u)", "a\n[b\n](/u)", "![東京\n](/u)", "*東京\n*", "> 東京\n> [京\n> ](/u)", "- 京\n  [都\n  ](/u)", "東京\n", "京", "。a", "a。\n*b\n*")
+		edge = append(edge, "東京の\n会社", "漢字。\n[会社\n](/u)", "東京の\n[会社\n](/u)", "a\n[b\n](/u)", "![東京\n](/u)", "*東京\n*", "> 東京\n> [京\n> ](/u)", "- 京\n  [都\n  ](/u)", "東京\n", "京", "。a", "a。\n*b\n*", "東京の\n[会社。\n](/u)", "[a。\n](/u)", "![b。\n](/u)", "> [京。\n> ](/u)", "*a。\n*", "a。\n")
 		var cjkDocs []string
 		for i, u := range UnicodeDocs() {
 			if i%4 == 0 || !r.Quick() { // quick: every fourth of the Unicode documents
 				cjkDocs = append(cjkDocs, string(u))
 			}
 		}
-		for _, cn := range []string{"core+unsafe", "gfm", "x:cjk-simple", "x:cjk-css3+hardwraps"} {
+		for _, cn := range []string{"core+unsafe", "gfm", "x:cjk-simple", "x:cjk-css3"} {
 			cfg := core.MustCfg(cn)
+			// under the East Asian line-break options the heading starts with a wide character (what stands at the head of
+			// the next block must not reach back into a closed block)
+			saveSep, saveMid := c09Sep, c09Mid
+			if strings.HasPrefix(cn, "x:cjk") {
+				c09Sep, c09Mid = []byte("\n\n# 世h\n\n"), []byte("<h1>世h</h1>\n")
+			}
 			type item struct {
 				src, out []byte
 				open     bool
@@ -397,6 +403,7 @@ func runC09(r *core.Run) {
 			sub.States.Store(int64(len(items)))
 			sub.Transitions.Store(sub.Evals.Load())
 			sub.Done()
+			c09Sep, c09Mid = saveSep, saveMid
 		}
 	}
 	// (1c) long closed prefixes: A = (unit sep)^n for EVERY n up to a bound, B = constructs whose rendering depends on
